@@ -595,6 +595,8 @@ bool Executor::report(State &s, const std::string &kind, const std::string &msg,
     Failure f; f.kind = kind; f.msg = msg; f.loc = locOf(at);
     f.func = at && at->getFunction() ? at->getFunction()->getName().str() : "";
     std::string key = kind + "|" + msg.substr(0, 80) + "|" + f.loc;
+    for (auto &c : s.choices) key += "|" + c;      // distinct choice vectors (menu entries, histories) are distinct findings
+    if (failures.size() >= 300) return true;
     unsigned tmo = opt.assertTimeoutMs;
     if (opt.concrete) {
         if (opt.dedupFailures && failureKeys.count(key)) return true;
